@@ -257,6 +257,10 @@ func Names() []string {
 // Guard runs f and converts a panic into a returned description (for cases where a panic is a
 // verdict the monitor wants to classify itself rather than a process death).
 func Guard(f func()) (p interface{}) {
+	if os.Getenv("VERIF_NOGUARD") != "" {
+		f()
+		return nil
+	}
 	defer func() {
 		if r := recover(); r != nil {
 			p = r
